@@ -148,7 +148,7 @@ def mkOverrides (subnets : List String) (types : List String) : List Override :=
 def mkFleetReq (cfg : AwsCfg) (subnets : List String) (addCount : Int) : FleetReq :=
   let lifecycle := if cfg.lifecycle = "" then Gen.lifecycleOnDemand else cfg.lifecycle
   { fleetType := "instant", total := addCount, minTarget := addCount, defaultType := lifecycle,
-    onDemandOptions := lifecycle = Gen.lifecycleOnDemand,
+    onDemandOptions := lifecycle == Gen.lifecycleOnDemand,
     templateID := cfg.launchTemplateID, templateVersion := cfg.launchTemplateVersion,
     overrides := mkOverrides subnets cfg.instanceTypeOverrides, tagged := cfg.resourceTagging }
 
